@@ -67,6 +67,18 @@ func (sh *Shared) resolveIntrinsic(fn *ssa.Function) intrinsicFn {
 
 func retZero(ex *Exec, fn *ssa.Function, args []Value) Value { return zeroResults(fn) }
 
+// lookupMethod returns the exported method name of type t, or nil if t has no such method.
+func (ex *Exec) lookupMethod(t types.Type, name string) *ssa.Function {
+	if t == errVType || t == stubT {
+		return nil
+	}
+	sel := ex.prog.MethodSets.MethodSet(t).Lookup(nil, name)
+	if sel == nil {
+		return nil
+	}
+	return ex.prog.MethodValue(sel)
+}
+
 func (ex *Exec) sliceTerms(s Slice) []*Term {
 	out := make([]*Term, s.len)
 	for i := 0; i < s.len; i++ {
@@ -137,11 +149,11 @@ func (ex *Exec) errorsIs(err, target Iface) *Term {
 			return
 		}
 		// Is method
-		if m := ex.prog.LookupMethod(e.t, nil, "Is"); m != nil && m.Signature.Params().Len() == 1 {
+		if m := ex.lookupMethod(e.t,"Is"); m != nil && m.Signature.Params().Len() == 1 {
 			r := ex.call(m, []Value{e.v, target}, nil)
 			res = Or(res, r.(*Term))
 		}
-		if m := ex.prog.LookupMethod(e.t, nil, "Unwrap"); m != nil && m.Signature.Params().Len() == 0 {
+		if m := ex.lookupMethod(e.t,"Unwrap"); m != nil && m.Signature.Params().Len() == 0 {
 			r := ex.call(m, []Value{e.v}, nil)
 			if ri, ok := r.(Iface); ok {
 				walk(ri, depth+1)
@@ -540,7 +552,7 @@ func init() {
 				}
 				return false
 			}
-			if m := ex.prog.LookupMethod(e.t, nil, "Unwrap"); m != nil && m.Signature.Params().Len() == 0 {
+			if m := ex.lookupMethod(e.t,"Unwrap"); m != nil && m.Signature.Params().Len() == 0 {
 				if ri, ok := ex.call(m, []Value{e.v}, nil).(Iface); ok {
 					return walk(ri, depth+1)
 				}
@@ -977,10 +989,10 @@ func (ex *Exec) fmtValue(a Iface) Str {
 		return toStr(x)
 	}
 	if a.t != nil {
-		if m := ex.prog.LookupMethod(a.t, nil, "Error"); m != nil {
+		if m := ex.lookupMethod(a.t,"Error"); m != nil {
 			return ex.call(m, []Value{a.v}, nil).(Str)
 		}
-		if m := ex.prog.LookupMethod(a.t, nil, "String"); m != nil {
+		if m := ex.lookupMethod(a.t,"String"); m != nil {
 			return ex.call(m, []Value{a.v}, nil).(Str)
 		}
 		if e, ok := a.v.(*ErrV); ok {
